@@ -90,6 +90,36 @@ theorem C10_own (cfg : Cfg) (hf : cfg.cancelChecksOwner = true) (s : State) (hr 
   obtain ⟨a, b, c, d⟩ := hi.c.routed _ p hmem
   exact ⟨hmem, ho, b.trans hx, a, hacc, c, Nat.le_trans hb d⟩
 
+/-- The literal reading of "arrived while that call was waiting" — the datagram
+reached the socket after the call was made. -/
+def C10_arrived_after_call_full (cfg : Cfg) : Prop :=
+  ∀ (pre mid post : List Label) (d : Dgram) (i : Nat) (s : State) (p : Pkt),
+    run cfg init (pre ++ [.arrive d] ++ mid ++ [.call i] ++ post) = some s →
+    (getC s i).pc = .returned (.ok (some p)) → p.seq ≠ (pre.filter (fun l => match l with | .arrive _ => true | _ => false)).length
+
+/-- Two callers with different transaction ids; caller 0's buffer (capacity 0)
+is full while its matcher is still running, so the loop is parked holding the
+mutex; a datagram for id 2 reaches the socket; only then caller 1 (id 2) calls. -/
+def cfgStale : Cfg :=
+  { caller := fun i => { xid := i + 1, matchNil := false, accepts := fun d => d.tag == 1, retry := 1 }, cap := 0 }
+
+/-- **C10_arrived_before_call_counterexample.** The literal reading is false of
+the model (and of the code: known finding `stale-datagram`, reproduced under
+synctest): a datagram that was already in the socket queue when the call was
+made is delivered to it. What holds is `C10_own`'s clause: the receive loop
+had not yet disposed of it. -/
+theorem C10_arrived_before_call_counterexample : ¬ C10_arrived_after_call_full cfgStale := by
+  intro h
+  have hrun : ∃ s, run cfgStale init
+      ([.call 0, .lock 0, .register 0, .transmit 0, .arrive ⟨1, true, 0⟩, .arrive ⟨1, true, 0⟩,
+        .rxRead, .rxPass, .rxLock, .rxDeliver, .rxUnlock, .take 0, .rxRead, .rxPass, .rxLock] ++
+       [.arrive ⟨2, true, 1⟩] ++ [] ++ [.call 1] ++
+       [.reject 0, .rxDeliver, .rxUnlock, .lock 1, .register 1, .transmit 1, .rxRead, .rxPass, .rxLock, .rxDeliver,
+        .rxUnlock, .take 1, .accept 1, .cancel1 1, .lock 1, .cancel2 1, .ret 1]) = some s ∧
+      (getC s 1).pc = .returned (.ok (some ⟨2, ⟨2, true, 1⟩⟩)) := ⟨_, rfl, by decide⟩
+  obtain ⟨s, h1, h2⟩ := hrun
+  exact h _ _ _ _ 1 s _ h1 h2 (by decide)
+
 /-- **C10_first.** … and it is the FIRST packet, in the order the loop routed
 them to that registration, that the call's matcher accepts. -/
 theorem C10_first (cfg : Cfg) (hf : cfg.cancelChecksOwner = true) (s : State) (hr : Reachable cfg s)
